@@ -203,6 +203,7 @@ def check(spec, sigma, r=None, forms=FORMS):
             return f"{form}:raises:{type(e).__name__}", f"{type(e).__name__}: {e}"
         results[form] = res
         rs = to_spec(res)
+        rs_eval = to_spec(res, ordered=True)    # keyword arguments in the order the node holds them
         if r is not None:
             r.evals += 1
         # value clause: structurally equal to the reference substitution => equal values; the
@@ -215,7 +216,7 @@ def check(spec, sigma, r=None, forms=FORMS):
         for vals in boxes:
             env = base_env()
             env.update(zip(free, vals))
-            got = refsem.outcome(refsem.evaluate, rs, dict(env))
+            got = refsem.outcome(refsem.evaluate, rs_eval, dict(env))
             ref = refsem.outcome(refsem.evaluate, want, dict(env))
             if refsem.is_skip(ref):
                 continue
